@@ -10,6 +10,9 @@ use std::fmt;
 use std::sync::Arc;
 use std::sync::atomic::{AtomicBool, Ordering};
 
+/// Largest number of frames accepted by `Socket::send_multipart` for one logical message.
+pub const MAX_USER_FRAMES_PER_MESSAGE: usize = 254;
+
 /// Represents the type of a ZeroMQ socket, defining its messaging pattern and behavior.
 #[derive(Debug, Clone, Copy, PartialEq, Eq, Hash)]
 pub enum SocketType {
@@ -131,6 +134,15 @@ impl Socket {
   ///
   /// The `frames` Vec should have MsgFlags::MORE set correctly on all but the last Msg.
   pub async fn send_multipart(&self, frames: Vec<Msg>) -> Result<(), ZmqError> {
+    // A logical message is held in a 255-slot container and DEALER/ROUTER add one
+    // envelope frame of their own, so refuse what cannot be represented.
+    if frames.len() > MAX_USER_FRAMES_PER_MESSAGE {
+      return Err(ZmqError::InvalidMessage(format!(
+        "multipart message has {} frames; at most {} are supported",
+        frames.len(),
+        MAX_USER_FRAMES_PER_MESSAGE
+      )));
+    }
     self.inner.send_multipart(FrameBatch::from(frames)).await
   }
 
